@@ -484,7 +484,7 @@ def run(ctx):
     ctx.ob("C09.conserve.O5", scanner, "return scanned", ok, "" if ok else "cst_scanner returns something other than the output list", line=scanner.node.lineno)
     _flush(ctx, scanner, eng2)
     ctx.count("typestate_functions", 2)
-    _lines(ctx)
+    ctx.section(_lines, ctx)
 
 
 def _flush(ctx, f, eng):
